@@ -1722,6 +1722,89 @@ def m_regex_new(I, args, fn, expr):
     return s
 
 
+# regex::RegexBuilder: the options are the inline flags of the same names in front of the pattern
+@model("regex::RegexBuilder::new")
+def m_regex_builder_new(I, args, fn, expr):
+    return Adt("regex::RegexBuilder", "RegexBuilder", {"pattern": strip(args[0]), "flags": ""})
+
+
+def _builder_flag(letter):
+    def m(I, args, fn, expr):
+        b = strip(args[0])
+        while isinstance(b, Ref):
+            b = strip(b.place.get())
+        on = strip(args[1])
+        if not (isinstance(b, Adt) and b.path == "regex::RegexBuilder") or not isinstance(on, bool):
+            return I.top("RegexBuilder option on %r with %r" % (b, on))
+        fl = b.fields["flags"].replace(letter, "").replace("-" + letter, "")
+        b.fields["flags"] = fl + (letter if on else "")
+        return args[0]
+    return m
+
+
+for _name, _letter in (("case_insensitive", "i"), ("multi_line", "m"), ("dot_matches_new_line", "s"), ("swap_greed", "U"),
+                       ("ignore_whitespace", "x"), ("crlf", "R")):
+    MODELS["regex::RegexBuilder::" + _name] = _builder_flag(_letter)
+
+
+@model("regex::RegexBuilder::build")
+def m_regex_builder_build(I, args, fn, expr):
+    b = strip(args[0])
+    while isinstance(b, Ref):
+        b = strip(b.place.get())
+    if not (isinstance(b, Adt) and b.path == "regex::RegexBuilder"):
+        return I.top("RegexBuilder::build of %r" % (b,))
+    pat = b.fields["pattern"]
+    fl = b.fields["flags"]
+    if fl:
+        if isinstance(pat, StrB):
+            p2 = StrB()
+            p2.push(("lit", "(?%s)" % fl))
+            p2.extend(pat)
+            pat = p2
+        elif isinstance(pat, str):
+            pat = "(?%s)%s" % (fl, pat)
+        else:
+            return I.top("RegexBuilder::build with a symbolic pattern")
+    st = I.rule_stubs.get("regex::Regex::new")      # a rule that observes the compilation observes this one as well
+    if st is not None:
+        return st(I, [pat], fn, expr)
+    return m_regex_new(I, [pat], fn, expr)
+
+
+def _set_op(kind):
+    """`&a & &b`, `&a | &b`, `&a - &b` of two sets (HashSet / BTreeSet as lists without duplicates)."""
+    def m(I, args, fn, expr):
+        a, b = strip(args[0]), strip(args[1])
+        if not (isinstance(a, RList) and isinstance(b, RList)):
+            return NotImplemented_(I, fn, args, expr)
+        out = []
+        if kind == "and":
+            out = [x for x in a.items if any(values_equal(I, x, y) for y in b.items)]
+        elif kind == "sub":
+            out = [x for x in a.items if not any(values_equal(I, x, y) for y in b.items)]
+        else:
+            out = list(a.items)
+            for y in b.items:
+                if not any(values_equal(I, x, y) for x in out):
+                    out.append(y)
+        return RList(out)
+    return m
+
+
+def NotImplemented_(I, fn, args, expr):
+    # integers and booleans: the ordinary operators
+    a, b = strip(args[0]), strip(args[1])
+    op = {"bitand": "BitAnd", "bitor": "BitOr", "sub": "Sub"}.get(fn["name"])
+    if op and isinstance(a, (int, bool)) and isinstance(b, (int, bool)):
+        return binop(I, op, a, b, expr)
+    return I.top("%s of %r and %r" % (fn["path"], a, b))
+
+
+MODELS["std::ops::BitAnd::bitand"] = _set_op("and")
+MODELS["std::ops::BitOr::bitor"] = _set_op("or")
+
+
 @model("std::collections::HashSet::<T, S, A>::insert")
 def m_hashset_insert(I, args, fn, expr):
     l = _list_ref(I, args[0], "insert")
